@@ -27,7 +27,9 @@ TableNodes == JsonDeserialize(IOEnv.TABLE).nodes
 
 M == INSTANCE PegMachine WITH Nodes <- TableNodes, W <- w, Cfg <- cfg
 
-MachineOps == M!Atoms \cup {"seq", "sor", "star", "star_partial", "plus", "opt", "partial", "at", "not_at", "must", "try_catch_return_false"}
+MachineOps == {"seq", "sor", "star", "star_partial", "plus", "opt", "partial", "at", "not_at", "must", "try_catch_return_false", "raise",
+               "if_must", "opt_must", "until", "rep", "rep_opt", "rep_min_max", "if_then_else", "enable", "disable", "action",
+               "try_catch_raise_nested"}
 RECURSIVE Reach(_, _)
 Reach(todo, seen) ==
    IF todo = {} THEN seen
@@ -38,7 +40,8 @@ Reach(todo, seen) ==
 Supported(ev) ==
    /\ ev.cls = 0 /\ ev.xt = 0 /\ ev.af \in 0..3 /\ ev.ib = 0
    /\ \A x \in Reach({ev.g}, {}) :
-         /\ TableNodes[x].iop \in MachineOps
+         /\ (TableNodes[x].iop \in MachineOps \/ M!IsAtom(x))
+         /\ (TableNodes[x].iop = "raise" => TableNodes[x].ip # <<>> /\ TableNodes[x].ip[1] > 0)
          /\ M!AKindOf(x, ev.af) \in 0..7
 
 Init == /\ l = 1 /\ w = <<>> /\ cfg = [g |-> 1, A |-> 1, M |-> 1, af |-> 0, cf |-> 1, eol |-> 3, ib |-> 0, il |-> 1, ic |-> 1]
